@@ -115,7 +115,7 @@ func checkSnapshot(s *txpool.VerifSnapshot, cfg txpool.TransactionPoolConfig, la
 			f.add("model:size-limit:sender", fmt.Sprintf("sender s%d holds %d transactions, MaxTransactionsPerAccount=%d", senderOfKey(a.Key), len(a.Transactions), cfg.MaxTransactionsPerAccount))
 		}
 		for j, n := range a.Processables {
-			if j > 0 && n != a.Processables[j-1]+1 {
+			if j > 0 && (n != a.Processables[j-1]+1 || n <= a.Processables[j-1]) {
 				f.add("model:processable:not-gapfree", fmt.Sprintf("sender s%d: processables %v (pooled nonces %v)", senderOfKey(a.Key), a.Processables, sortedNonces(a.Transactions)))
 			}
 			e, ok := a.Transactions[n]
